@@ -3,7 +3,7 @@
    efficiency/ESS/ratio oracle (= every population), every kernel and random stream, every valid
    option record; plus the binary64 statement for the fixed schedule over a finite domain. *)
 From Coq Require Import Reals List Bool Arith ZArith Lra Lia.
-From AV Require Import Lib.Num Model.SMC Proofs.Schedule Proofs.SMCGeneric Proofs.SMCReal Proofs.FixedF64.
+From AV Require Import Lib.Num Model.SMC Proofs.Schedule Proofs.SMCGeneric Proofs.SMCReal Proofs.FixedF64 Proofs.StallF64.
 Import ListNotations.
 Open Scope R_scope.
 
@@ -83,7 +83,16 @@ Theorem C06_fixed_n_f64 : forall (P G : Type) effq essq ratio ratio_var cte pbet
     /\ o_iter _ _ _ out = n.
 Proof. exact sample_fixed_n_f64. Qed.
 
+(* binary64, a positive tolerance BELOW the spacing of the floats (1e-17 < 2^-53): on a bracket of two adjacent floats the midpoint
+   rounds onto an end; the loop then stops at once and returns the bracket (repair F58 — before it, the loop
+   `while beta_max - beta_min > beta_tolerance` never exited there, whatever the fuel).  The termination theorem above is about
+   exact arithmetic, where halving always shrinks the bracket. *)
+Theorem C06_bisection_adjacent_floats_f64 : forall (P : Type) (effq : P -> PrimFloat.float -> PrimFloat.float) (p : P) target fuel trace,
+  bisect NumF P effq (S fuel) p target b_lo b_hi tiny_tol trace = Some (b_lo, b_hi, trace).
+Proof. exact bisect_stops_on_adjacent_floats. Qed.
+
 Print Assumptions C06_schedule.
+Print Assumptions C06_bisection_adjacent_floats_f64.
 Print Assumptions C06_schedule_resumed.
 Print Assumptions C06_terminates_no_error.
 Print Assumptions C06_fixed_n_exact.
